@@ -301,8 +301,8 @@ def run(eng, rep) -> None:
     rep.assume("list.count / len / in as specified by Python; order independence follows from the symmetric predicate forms (count, emptiness, membership)")
     prog.func(GENERAL)
     regs = registered_checks(eng)
-    rep.floor("R09.1", "registered general checks", len([r for r in regs if r[3] == "general"]), 6)
-    rep.floor("R09.1", "registered plug-in checks", len([r for r in regs if r[3] != "general"]), 3)
+    rep.floor("R09.1", "registered general checks", len([r for r in regs if r[3] == "general"]), 4)
+    rep.floor("R09.1", "registered plug-in checks", len([r for r in regs if r[3] != "general"]), 2)
 
     rows = spec_rows(eng)
     extracted = {}
@@ -551,7 +551,7 @@ def r092(eng, rep, regs) -> None:
                 rep.violation("R09.2", get.file, get.qual, "category == '%s' -> Some(%s)" % (c, got[:90]), "population handed to the checks is a filtered/sliced subset of the specified node set")
             else:
                 rep.undecided("R09.2", get.file, get.qual, "category == '%s' -> Some(%s)" % (c, got[:90]), "population expression not in a recognised form")
-    rep.floor("R09.2", "categories with registered checks", len(used), 5)
+    rep.floor("R09.2", "categories with registered checks", len(used), 3)
 
 
 def r093(eng, rep) -> None:
